@@ -96,7 +96,7 @@ Proof.
     { intros c. eapply satq_mono; [intros e He; apply load_ok_hay_only; exact He|].
       eapply satq_weaken; [apply (pf_prefilter_correct c x i1 i2 f a' h' Hf Hh' Hx)|].
       intros [cd|] Hr; [exact (proj2 Hr)|exact Hr]. }
-    destruct ar as [c| | |]; apply Hgen.
+    apply Hgen.
 Qed.
 
 (* computations without events *)
